@@ -123,16 +123,21 @@ func HighLevel(spec Spec, dir string) (*serverconfig.Config, error) {
 	return c, nil
 }
 
-// Start loads spec. With listen=true the mux is served by an httptest.Server
-// (real TCP on 127.0.0.1); otherwise requests go straight to s.Mux.
-func Start(spec Spec, listen bool) (srv *Server, err error) {
+// HermeticEnv points perkeep's configuration, cache and var directories at a scratch directory
+// (osutil refuses to look at host configuration when package testing is linked in).
+func HermeticEnv() {
 	envOnce.Do(func() {
-		// osutil refuses to look at host configuration when package testing is linked in
 		d, _ := os.MkdirTemp("", "verif-camli-cfg-")
 		os.Setenv("CAMLI_CONFIG_DIR", d)
 		os.Setenv("CAMLI_CACHE_DIR", d)
 		os.Setenv("CAMLI_VAR_DIR", d)
 	})
+}
+
+// Start loads spec. With listen=true the mux is served by an httptest.Server
+// (real TCP on 127.0.0.1); otherwise requests go straight to s.Mux.
+func Start(spec Spec, listen bool) (srv *Server, err error) {
+	HermeticEnv()
 	s := &Server{Spec: spec}
 	needDir := spec.Storage != "memory" || spec.Index != "memory"
 	if needDir {
